@@ -49,6 +49,18 @@ def main():
                 out['dtype'] = [str(bkg.dtype), str(rms.dtype)]
                 np.save(a['save'] + '_bkg.npy', bkg)
                 np.save(a['save'] + '_rms.npy', rms)
+                if a.get('out_base') and not a.get('compressed', False):
+                    # the written maps as a reader sees them (BSCALE applied by astropy)
+                    try:
+                        from astropy.io import fits
+                        fb = fits.getdata(a['out_base'] + '_bkg.fits').astype(np.float64)
+                        fr = fits.getdata(a['out_base'] + '_rms.fits').astype(np.float64)
+                        np.save(a['save'] + '_fbkg.npy', fb.astype(np.float32))
+                        np.save(a['save'] + '_frms.npy', fr.astype(np.float32))
+                        out['files'] = True
+                    except BaseException as e:  # noqa
+                        out['files'] = False
+                        out['files_error'] = f'{type(e).__name__}: {str(e)[-300:]}'
         except BaseException as e:  # noqa
             out['raised'] = f'{type(e).__name__}: {str(e)[-400:]}'
         out['wall'] = round(time.time() - t0, 3)
